@@ -475,10 +475,11 @@ class Check:
         doc = {"property_id": self.pid, "tier": self.tier, "seed": self.seed, "level": self.level,
                "coverage": cov, "assumptions": self.assumptions,
                "wall_s": round(time.time() - self.t0, 2), "violations": len(lines)}
-        os.makedirs(os.path.join(VERIF, "evidence"), exist_ok=True)
-        tmp = os.path.join(VERIF, "evidence", self.pid + ".json.tmp")
+        evdir = os.environ.get("VERIF_EVIDENCE_DIR") or os.path.join(VERIF, "evidence")	# redirected only by tools/seedtest.py
+        os.makedirs(evdir, exist_ok=True)
+        tmp = os.path.join(evdir, self.pid + ".json.tmp")
         json.dump(doc, open(tmp, "w"), indent=1)
-        os.replace(tmp, os.path.join(VERIF, "evidence", self.pid + ".json"))
+        os.replace(tmp, os.path.join(evdir, self.pid + ".json"))
         print(f"{self.pid} {self.tier}: evaluations={ev} distinct={dn} "
               f"states={cov.get('states', '-')} transitions={cov.get('transitions', '-')} "
               f"obs_classes={len(self.obs)} exhaustive={cov['exhaustive']} violations={len(lines)} "
